@@ -56,6 +56,10 @@ def model_list():
     b = {'name': 'B', 'bases': ['A'], 'params': [('x', 'int'), ('y', 'int'), ('a', 'any', None)]}
     out.append(('hier-any', {'classes': base + [a, b], 'root': ('cls', 'A')}))
     out.append(('hier-any', {'classes': base + [a, b], 'root': ('union', [('cls', 'A'), 'int'])}))
+    # parameters whose names start with an underscore are parameters like any other
+    k5 = {'name': 'K', 'params': [('x', 'int'), ('_tok', 'any', None), ('_i', ('cls', 'In'), None)]}
+    out.append(('underscore-param', {'classes': base + [k5], 'root': ('cls', 'K')}))
+    out.append(('underscore-param', {'classes': base + [dict(k5, extra=True)], 'root': ('list', ('cls', 'K'))}))
     k4 = {'name': 'K', 'params': [('i', ('cls', 'In')), ('s', 'str', 'd')]}
     out.append(('typed-only', {'classes': base + [k4], 'root': ('cls', 'K')}))
     return out
